@@ -238,6 +238,22 @@ func runC15(c *eng.Ctx, tier string) {
 				}
 			}
 			c.Check(okk, "R-C15-3", lw, m.In.Pos(), eng.InstrStr(m.In)+" [handle]", "the registered watcher wraps the handle obtained for the same name", "")
+			// every caller gets a watcher of its own: what is returned with a nil
+			// error is the watcher registered by this very call (a shared one
+			// would have its single pending signal consumed by whoever asks first)
+			if isApp {
+				pa := eng.Path{Blocks: []*ssa.BasicBlock{m.In.Block()}}
+				elems, _ := pa.SliceElems(args[1])
+				ei := errResultIndex(lw)
+				for _, r := range eng.Returns(lw) {
+					rv := eng.RetVals(r)
+					if ei < 0 || !eng.IsNilConst(eng.Origin(rv[ei])) {
+						continue
+					}
+					same := len(elems) == 1 && (eng.Origin(rv[0]) == eng.Origin(elems[0]) || eng.Same(rv[0], elems[0]))
+					c.Check(same && eng.InstrDominates(m.In, r), "R-C15-3", lw, r.Pos(), "watcher returned: "+eng.ValStr(rv[0]), "the watcher created and registered by this call (one per caller)", "returns another watcher, or returns without registering")
+				}
+			}
 		}
 		if nReg == 0 {
 			c.Bad("R-C15-3", lw, lw.Pos(), "registration", "the watcher is added to the name's watcher list", "no update of Store.active.w")
